@@ -539,6 +539,20 @@ let () =
                                       Cie c; Fde { fde0 with k = 1; faddr = Const (Z.of_int 0x50000); finsns = [ (0, INegateRa) ] } ] })
                         [ 0; 1 ]) [ false; true ]) [ false; true ]) [ 4; 8 ])
         [ (false, 1); (false, 3); (false, 4); (true, 1) ];
+      (* the reader context's storage limits reached and exceeded by one (script machine's xguard): remember_state
+         chains against the number of rules the CIE leaves (0..3: the saved initial rules take a row from 2 on);
+         191/192/193 distinct registers in the FDE and in the CIE *)
+      List.iter (fun ncie ->
+          for depth = 0 to 4 do
+            let c = { cie0 with asz = 8; daf = -8; cinsns = List.init ncie (fun j -> IOffset (j + 1, -8 * (j + 1))) } in
+            oracle_case emit name
+              (simple c { fde0 with finsns = List.init depth (fun j -> (4 * j, IRemember))
+                                             @ [ (4 * depth, IRestoreState); (4 * depth + 4, IRestore 1); (4 * depth + 4, IRestore 9) ] })
+          done) [ 0; 1; 2; 3 ];
+      List.iter (fun nreg ->
+          oracle_case emit name (simple { cie0 with asz = 8 } { fde0 with finsns = List.init nreg (fun j -> (j / 64, IUndefined (j + 100))) });
+          oracle_case emit name (simple { cie0 with asz = 8; cinsns = List.init nreg (fun j -> ISameValue (j + 100)) } fde0))
+        [ 191; 192; 193 ];
       let r = mk_rng seed in
       for _ = 1 to n do oracle_case emit name (rand_table ~valid:true r) done);
   (* ---- regressions of repaired findings, and the open one (see known_findings.txt) ---- *)
